@@ -33,6 +33,16 @@ def strKeysDistinct : List (PyVal × PyVal) → Bool
   | (.str k, _) :: rest => !(rest.any fun kv => match kv.1 with | .str k' => k == k' | _ => false) && strKeysDistinct rest
   | _ :: _ => false
 
+/-- all keys are (non-bool) ints and pairwise different -/
+def intKeysDistinct : List (PyVal × PyVal) → Bool
+  | [] => true
+  | (.int i, _) :: rest => !(rest.any fun kv => match kv.1 with | .int j => i == j | _ => true) && intKeysDistinct rest
+  | _ :: _ => false
+
+def isIntDecl : FieldDecl → Bool
+  | .integer _ => true
+  | _ => false
+
 def isNoneDecl : FieldDecl → Bool
   | .noneF => true
   | _ => false
@@ -110,10 +120,13 @@ def inFrag (O : Oracles) : FieldDecl → PyVal → Bool
     !imm && (match v with
       | .set fr xs => !fr && PyVal.pyNodup xs && !(xs.any unhashable) && xs.all (inFrag O f)
       | _ => false)
-  /- a Map with String keys: distinct string keys (as in every real dict), values in the fragment -/
+  /- a Map with String keys, or with Integer keys (as a PYTHON document: json.dumps would turn the int keys into
+     strings, see map_int_keys_text_counterexample): distinct keys (as in every real dict), values in the fragment -/
   | .mapOf kf vf _, v =>
-    isStringDecl kf && (match v with
-      | .dict kvs => strKeysDistinct kvs && kvs.all (fun kv => inFrag O vf kv.2)
+    (match v with
+      | .dict kvs =>
+        ((isStringDecl kf && strKeysDistinct kvs) || (isIntDecl kf && intKeysDistinct kvs))
+          && kvs.all (fun kv => inFrag O vf kv.2)
       | _ => false)
   | _, _ => false
 termination_by structural f _ => f
